@@ -1,5 +1,6 @@
 import VrlModel.Lang.Parse
 import VrlModel.Lang.Eval
+import VrlModel.Lang.Info
 
 namespace Driver.LangRun
 open Wire
@@ -46,6 +47,44 @@ def handle (op : String) (args : List String) : Option String :=
     | _ =>
       pure (showOutcome out ++ "\t" ++ showValue s.event ++ "\t" ++ showValue s.metadata ++ "\t" ++
         showVars s.vars ++ "\tlog " ++ " | ".intercalate (s.log.reverse.map showAccess))
+  | "o.c16", [_src, _event, _metadata, _faults, "|", prog, implQ, implA, log] => do
+    -- (1) the lists the model computes from the compiled tree are contained in the reported ones
+    -- (so the theorem `C16.run_covered` speaks about the reported lists); (2) on the observed run:
+    -- every read/removal is covered (equal, ancestor or descendant) by a reported query — the root
+    -- check of `Runtime::resolve` reads the event root —, every insert by a reported assignment.
+    let prog ← Parse.program prog
+    let parseList : String → Option (List (Bool × Path)) := fun t =>
+      if t == "-" then some [] else
+        (t.splitOn " | ").mapM fun e =>
+          if e.startsWith "e:" then (pathOfString (dropPrefix e 2)).map (false, ·)
+          else if e.startsWith "m:" then (pathOfString (dropPrefix e 2)).map (true, ·)
+          else none
+    let iq ← parseList implQ
+    let ia ← parseList implA
+    let isPrefix : Path → Path → Bool := fun a b => a.length ≤ b.length && (b.take a.length == a)
+    let covered : List (Bool × Path) → Bool × Path → Bool := fun l x =>
+      l.any fun y => y.1 == x.1 && (isPrefix y.2 x.2 || isPrefix x.2 y.2)
+    let mq := queriesS prog
+    let ma := assignsS prog
+    if !(mq.all (iq.contains ·)) then pure "fails info:queries_missing"
+    else if !(ma.all (ia.contains ·)) then pure "fails info:assignments_missing"
+    else
+      let entries := if log == "-" then [] else log.splitOn " | "
+      let parseEntry : String → Option (Char × Bool × Path) := fun e =>
+        match e.toList with
+        | k :: m :: rest =>
+          let rest := if rest.head? == some '!' then rest.drop 1 else rest
+          match rest with
+          | ':' :: p => (pathOfString (String.ofList p)).map (k, m == 'm', ·)
+          | _ => none
+        | _ => none
+      let es ← entries.mapM parseEntry
+      let bad := (es.zipIdx).find? fun ((k, m, p), i) =>
+        if i == 0 && k == 'g' && !m && p.isEmpty then false     -- root check
+        else if k == 'i' then !covered ia (m, p) else !covered iq (m, p)
+      match bad with
+      | none => pure "holds"
+      | some ((k, _, _), _) => pure (if k == 'i' then "fails write_uncovered:-" else "fails read_uncovered:-")
   | "o.c17.nopanic", [tag, _src, _event, _metadata, faults, "|", cls, _nops] =>
     -- Spec on the implementation's observation: no panic under any fault schedule; a rejected root
     -- read (operation 0) ends the run with an error.
